@@ -132,7 +132,7 @@ class ShapeExec:
                 return e.id
             if e.id == '_':
                 return None
-            if e.id in ('bool', 'int', 'float', 'complex'):
+            if e.id in ('bool', 'int', 'float', 'complex', 'tuple', 'list', 'str'):
                 return e.id
             if e.id not in self.env:
                 raise Unsupported(f'unbound name {e.id}')
@@ -293,6 +293,8 @@ class ShapeExec:
                     return isinstance(v, int) and not isinstance(v, bool)
                 if t == 'Array':
                     return isinstance(v, Arr)
+                if t in ('tuple', 'list', '(tuple, list)', '(list, tuple)'):
+                    return isinstance(v, list)
                 raise Unsupported(f'isinstance(..., {t})')
             if f == '_Wrapper' or f == '_Wrapper.broadcasted_arrays':
                 kw = {k.arg: k.value for k in e.keywords}
@@ -347,8 +349,10 @@ class ShapeExec:
 
     def run(self, stmts):
         for s in stmts:
-            if isinstance(s, ast.Assign) and len(s.targets) == 1:
-                self.bind(s.targets[0], self.ev(s.value))
+            if isinstance(s, ast.Assign):
+                v = self.ev(s.value)
+                for t in s.targets:
+                    self.bind(t, list(v) if isinstance(v, list) else v)
             elif isinstance(s, ast.For) and not s.orelse:
                 for item in list(self.ev(s.iter)):
                     self.bind(s.target, item)
@@ -372,6 +376,17 @@ class ShapeExec:
     def bind(self, target, value):
         if isinstance(target, ast.Name):
             self.env[target.id] = value
+        elif isinstance(target, (ast.Tuple, ast.List)) and sum(isinstance(t, ast.Starred) for t in target.elts) == 1:
+            vals = list(value)
+            k = next(i for i, t in enumerate(target.elts) if isinstance(t, ast.Starred))
+            after = len(target.elts) - k - 1
+            if len(vals) < len(target.elts) - 1:
+                raise Unsupported('unpacking length mismatch')
+            for t, v in zip(target.elts[:k], vals[:k]):
+                self.bind(t, v)
+            self.bind(target.elts[k].value, vals[k:len(vals) - after])
+            for t, v in zip(target.elts[k + 1:], vals[len(vals) - after:]):
+                self.bind(t, v)
         elif isinstance(target, (ast.Tuple, ast.List)) and not any(isinstance(t, ast.Starred) for t in target.elts):
             vals = list(value)
             if len(vals) != len(target.elts):
